@@ -379,32 +379,20 @@ where
     /// assert!(n1.is_orphan());
     /// ```
     pub fn isolate(&self) {
-        for Edge(_, v, _) in self.iter_out() {
-            #[cfg(gdsl_verif)]
-            crate::verif_hook::lock_point(&v.inner.2, true);
-            v.inner
-                .2
-                .write()
-                .unwrap()
-                .remove_inbound(self.key())
-                .unwrap();
+        // Take both lists in one critical section. Walking the live lists
+        // while other threads remove entries from them skips neighbours, and
+        // a mirror entry may already be gone when we get to it.
+        let (outbound, inbound) = self.inner.2.write().unwrap().take_all();
+        for (v, _) in outbound {
+            if let Some(v) = v.upgrade() {
+                let _ = v.inner.2.write().unwrap().remove_inbound(self.key());
+            }
         }
-        for Edge(v, _, _) in self.iter_in() {
-            #[cfg(gdsl_verif)]
-            crate::verif_hook::lock_point(&v.inner.2, true);
-            v.inner
-                .2
-                .write()
-                .unwrap()
-                .remove_outbound(self.key())
-                .unwrap();
+        for (v, _) in inbound {
+            if let Some(v) = v.upgrade() {
+                let _ = v.inner.2.write().unwrap().remove_outbound(self.key());
+            }
         }
-        #[cfg(gdsl_verif)]
-        crate::verif_hook::lock_point(&self.inner.2, true);
-        self.inner.2.write().unwrap().clear_outbound();
-        #[cfg(gdsl_verif)]
-        crate::verif_hook::lock_point(&self.inner.2, true);
-        self.inner.2.write().unwrap().clear_inbound();
     }
 
     /// Returns true if the node is a root node. Root nodes are nodes that have
